@@ -53,7 +53,10 @@ def run(ctx):
                 cases.append(textgen.pipe(text, flags=flags, salt=base["salt"], words=c12.WORDS if "w" in sub else None, asnums=base["asnums"] if "n" in sub else None, reserved=base["reserved"],
                                           pfx=base["pfx"], nets=base["nets"], b4=base["b4"], b6=base["b6"]))
                 metas.append((sub, base, text))
-    m, i = ctx.correspond(cases, project=lambda c, o: textgen.norm(o), label="multi-feature")
+    def project(c, o):
+        """does the combined run complete (what decides C15 is, on each side separately, combined run == chain of single-feature runs)"""
+        return "RAISED" if o.startswith("RAISED") else "completed"
+    m, i = ctx.correspond(cases, project=project, label="multi-feature")
     nt = 0
     for c, out, mo, (sub, base, text) in zip(cases, i, m, metas):
         exp = chain(vlib.run_impl, base, sub, text)
@@ -63,7 +66,7 @@ def run(ctx):
             ctx.fail("features {%s}%s: combined run differs from the chain of single-feature runs" % (sub, " (undo)" if base["ipflag"] == "u" else ""),
                      {"line": text[k] if k < len(text) else None, "features": sub, "options": {x: base[x] for x in ("salt", "pfx", "nets", "b4", "b6")}},
                      got[k] if isinstance(got, list) and k < len(got) else got, exp[k] if isinstance(exp, list) and k < len(exp) else exp, label="impl")
-        if ctx.model_ok and mo is not None and len(sub) >= 2 and rng.random() < (0.3 if q else 0.1):
+        if ctx.model_ok and mo is not None and len(sub) >= 2 and rng.random() < (0.5 if q else 0.15):
             expm = chain(vlib.run_model, base, sub, text)
             gotm = "RAISED" if mo.startswith("RAISED") else textgen.outlines(mo)
             if gotm != expm:
